@@ -67,3 +67,159 @@ int vm_atoi(const char *s) {
   while (vm_isdigit((unsigned char) s[i])) { v = v * 10u + (unsigned) (s[i] - '0'); i++; }
   return neg ? (int) (0u - v) : (int) v;
 }
+
+/* ---- strtol family, C11 7.22.1.4 ("C" locale): white space, optional sign, optional 0x/0X (base 16 or
+ * 0), base 0 = 16 after 0x, 8 after a leading 0, else 10; digits and letters below the base; no digits
+ * = no conversion (value 0, *end = s).  Overflow: clamped (LONG_MAX/LONG_MIN, ULONG_MAX); errno is not
+ * modelled.  scanf_mode: the two glibc scanf deviations from strtol are reproduced (a lone "0x"
+ * consumes the x). */
+static int vm_digval(char c) {
+  if (c >= '0' && c <= '9') return c - '0';
+  if (c >= 'a' && c <= 'z') return c - 'a' + 10;
+  if (c >= 'A' && c <= 'Z') return c - 'A' + 10;
+  return 99;
+}
+
+unsigned long long vm_scan_int(const char *s, int base, int scanf_mode, size_t *endi, int *neg, int *ovf) {
+  size_t i = 0;
+  unsigned long long v = 0, cutoff, cutlim;
+  int any = 0, lone0 = 0;
+  *neg = 0; *ovf = 0; *endi = 0;
+  if (base != 0 && (base < 2 || base > 36)) return 0;
+  while (vm_isspace((unsigned char) s[i])) i++;
+  if (s[i] == '-') { *neg = 1; i++; } else if (s[i] == '+') i++;
+  if ((base == 0 || base == 16) && s[i] == '0' && (s[i + 1] == 'x' || s[i + 1] == 'X')) {
+    if (vm_digval(s[i + 2]) < 16) { i += 2; base = 16; }
+    else { lone0 = 1; if (base == 0) base = 8; }
+  } else if (base == 0) base = (s[i] == '0') ? 8 : 10;
+  cutoff = ~0ull / (unsigned long long) base;
+  cutlim = ~0ull % (unsigned long long) base;
+  while (vm_digval(s[i]) < base) {
+    unsigned long long d = (unsigned long long) vm_digval(s[i]);
+    if (v > cutoff || (v == cutoff && d > cutlim)) *ovf = 1; else v = v * (unsigned long long) base + d;
+    any = 1; i++;
+  }
+  if (any) *endi = (scanf_mode && lone0) ? i + 1 : i;
+  return v;
+}
+
+#define VM_LONG_MAX  ((unsigned long long) (~0ul >> 1))
+#define VM_LLONG_MAX ((unsigned long long) (~0ull >> 1))
+static long long vm_to_signed(unsigned long long v, int neg, int ovf, unsigned long long max) {
+  if (neg) return (ovf || v > max + 1ull) ? -(long long) max - 1 : (long long) (0ull - v);
+  return (ovf || v > max) ? (long long) max : (long long) v;
+}
+long vm_strtol(const char *s, char **end, int base) {
+  size_t e; int neg, ovf; unsigned long long v = vm_scan_int(s, base, 0, &e, &neg, &ovf);
+  if (end) *end = (char *) s + e;
+  return (long) vm_to_signed(v, neg, ovf, VM_LONG_MAX);
+}
+long long vm_strtoll(const char *s, char **end, int base) {
+  size_t e; int neg, ovf; unsigned long long v = vm_scan_int(s, base, 0, &e, &neg, &ovf);
+  if (end) *end = (char *) s + e;
+  return vm_to_signed(v, neg, ovf, VM_LLONG_MAX);
+}
+unsigned long vm_strtoul(const char *s, char **end, int base) {
+  size_t e; int neg, ovf; unsigned long long v = vm_scan_int(s, base, 0, &e, &neg, &ovf);
+  if (end) *end = (char *) s + e;
+  if (ovf || v > (unsigned long long) ~0ul) return ~0ul;
+  return neg ? (unsigned long) (0ul - (unsigned long) v) : (unsigned long) v;
+}
+unsigned long long vm_strtoull(const char *s, char **end, int base) {
+  size_t e; int neg, ovf; unsigned long long v = vm_scan_int(s, base, 0, &e, &neg, &ovf);
+  if (end) *end = (char *) s + e;
+  if (ovf) return ~0ull;
+  return neg ? 0ull - v : v;
+}
+long vm_atol(const char *s) { return vm_strtol(s, (char **) 0, 10); }
+long long vm_atoll(const char *s) { return vm_strtoll(s, (char **) 0, 10); }
+
+/* ---- strtod / atof, C11 7.22.1.3, decimal notation in the "C" locale: white space, sign, digits with
+ * optional '.', optional e/E exponent (only if at least one exponent digit follows).  The value is
+ * computed exactly as a correctly rounding strtod does on its fast path: mantissa M < 2^53 and
+ * |decimal exponent| <= 22 are exact doubles, and ONE IEEE multiplication or division of exact
+ * operands is correctly rounded.  Everything else (more digits, larger exponents, inf/nan/hex floats)
+ * is outside the model: CBMC gets an unconstrained double (over-approximation), the native build
+ * defers to the C library.  scanf_mode: glibc's scanf consumes a dangling exponent marker/sign. */
+#ifdef VERIF_NATIVE
+#include <stdlib.h>
+#include <stdio.h>
+long vm_float_deferred;   /* native only: conversions outside the model that were handed to the C library */
+#else
+double nondet_double(void);
+size_t nondet_size_t(void);
+#endif
+static const double VM_P10[23] = {1e0, 1e1, 1e2, 1e3, 1e4, 1e5, 1e6, 1e7, 1e8, 1e9, 1e10, 1e11, 1e12, 1e13, 1e14, 1e15, 1e16, 1e17,
+                                  1e18, 1e19, 1e20, 1e21, 1e22};
+double vm_scan_float(const char *s, int scanf_mode, size_t *endi) {
+  size_t i = 0, j;
+  unsigned long long M = 0;
+  int neg = 0, nd = 0, fd = 0, big = 0, eneg = 0, E = 0, e10, ae, k;
+  double p10 = 1.0, r;
+  *endi = 0;
+  while (vm_isspace((unsigned char) s[i])) i++;
+  if (s[i] == '-') { neg = 1; i++; } else if (s[i] == '+') i++;
+  if (s[i] == 'i' || s[i] == 'I' || s[i] == 'n' || s[i] == 'N' || (s[i] == '0' && (s[i + 1] == 'x' || s[i + 1] == 'X'))) {
+#ifdef VERIF_NATIVE
+    char *e; int cnt = 0;
+    vm_float_deferred++;
+    if (scanf_mode) { r = 0.0; if (sscanf(s, "%lf%n", &r, &cnt) != 1) cnt = 0; *endi = (size_t) cnt; return r; }
+    r = strtod(s, &e); *endi = (size_t) (e - s); return r;
+#else
+    j = nondet_size_t(); __CPROVER_assume(j <= vm_strlen(s)); *endi = j; return nondet_double();   /* outside the model */
+#endif
+  }
+  while (vm_isdigit((unsigned char) s[i])) { if (M > 900000000000000ull) big = 1; else M = M * 10ull + (unsigned long long) (s[i] - '0'); nd++; i++; }
+  if (s[i] == '.') {
+    j = i + 1;
+    while (vm_isdigit((unsigned char) s[j])) { if (M > 900000000000000ull) big = 1; else M = M * 10ull + (unsigned long long) (s[j] - '0'); nd++; fd++; j++; }
+    if (nd > 0) i = j;
+  }
+  if (nd == 0) return 0.0;                       /* no conversion */
+  if (s[i] == 'e' || s[i] == 'E') {
+    j = i + 1;
+    if (s[j] == '-') { eneg = 1; j++; } else if (s[j] == '+') j++;
+    if (vm_isdigit((unsigned char) s[j])) {
+      while (vm_isdigit((unsigned char) s[j])) { if (E < 10000) E = E * 10 + (s[j] - '0'); j++; }
+      i = j;
+    } else if (scanf_mode) i = j;
+  }
+  *endi = i;
+  e10 = (eneg ? -E : E) - fd;
+  ae = e10 < 0 ? -e10 : e10;
+  if (big || ae > 22) {
+#ifdef VERIF_NATIVE
+    vm_float_deferred++;
+    return strtod(s, (char **) 0);
+#else
+    return M == 0 ? (neg ? -0.0 : 0.0) : nondet_double();   /* outside the model */
+#endif
+  }
+  for (k = 0; k <= 22; k++) if (k == ae) p10 = VM_P10[k];   /* select first: one multiplication/division circuit */
+  r = e10 < 0 ? (double) M / p10 : (double) M * p10;
+  return neg ? -r : r;
+}
+double vm_strtod(const char *s, char **end) {
+  size_t e; double r = vm_scan_float(s, 0, &e);
+  if (end) *end = (char *) s + e;
+  return r;
+}
+double vm_atof(const char *s) { return vm_strtod(s, (char **) 0); }
+
+/* ---- comparisons a unit could use instead of strcmp (C11 7.24.4.4, POSIX strcasecmp in the C locale) */
+static int vm_lower(int c) { return (c >= 'A' && c <= 'Z') ? c - 'A' + 'a' : c; }
+int vm_strncmp(const char *a, const char *b, size_t n) {
+  size_t i = 0;
+  while (i < n && a[i] != '\0' && a[i] == b[i]) i++;
+  return i == n ? 0 : (int) (unsigned char) a[i] - (int) (unsigned char) b[i];
+}
+int vm_strncasecmp(const char *a, const char *b, size_t n) {
+  size_t i = 0;
+  while (i < n && a[i] != '\0' && vm_lower((unsigned char) a[i]) == vm_lower((unsigned char) b[i])) i++;
+  return i == n ? 0 : vm_lower((unsigned char) a[i]) - vm_lower((unsigned char) b[i]);
+}
+int vm_strcasecmp(const char *a, const char *b) {
+  size_t i = 0;
+  while (a[i] != '\0' && vm_lower((unsigned char) a[i]) == vm_lower((unsigned char) b[i])) i++;
+  return vm_lower((unsigned char) a[i]) - vm_lower((unsigned char) b[i]);
+}
